@@ -209,3 +209,27 @@ func vh_C13_UtilInstance() {
 	vfAssert("own-reply", got == interface{}(vfFn("R", x)))
 	vfReach("end")
 }
+
+// the entry points WITHOUT a timeout (AskOnce, AskChannel) wait for the reply however long the actor takes: the reply
+// latency is 300 ms or taken from the code (vfProbeDuration: 20% beyond every time.Duration constant the ask / reply
+// functions mention - a hidden wait limit, a retry interval in the CURRENT source); the asker still gets exactly the
+// value replied for its request, and the actor serves the next request afterwards
+func vh_C13_SlowReplies() {
+	latency := vfProbeDuration("latency", "Ask|Reply|ActorDef", 300*time.Millisecond)
+	served := 0
+	actor := c13Actor(latency, false, &served)
+	msg := vfInt("msg")
+	vfAssume(msg < 0) // negative messages are the slow ones (c13Actor)
+	var got int
+	if vfChoose("how", 2) == 0 {
+		got = AskNewGenerics[int, int](msg).AskOnce(actor)
+	} else {
+		got = <-AskNewGenerics[int, int](msg).AskChannel(actor)
+	}
+	vfAssert("own-reply", got == vfFn("R", msg))
+	vfQuiesce()
+	next := AskNewGenerics[int, int](1).AskOnce(actor)
+	vfAssert("actor-still-serves", next == vfFn("R", 1))
+	vfAssert("each-request-served-once", served == 2)
+	vfReach("end")
+}
